@@ -216,3 +216,315 @@ Proof.
   destruct E as (am & E). exists am. split; [exact E|]. apply amocs_inv. exact E.
 Qed.
 End Amoc.
+
+(** ====================================================================== *)
+(** * 3. Greedy changepoint selection *)
+
+(** [greedy_cpts] is the generic index-level loop [ggreedy] with the kill relation
+    "interval j contains the maximiser of interval i", mapped through [maxs]. *)
+Definition Ksbs (ivs : list (nat * nat)) (maxs : list nat) (i j : nat) : bool :=
+  contains (nth j ivs (0, 0)%nat) (nthN maxs i).
+
+Lemma greedy_cpts_gen : forall thr ivs maxs fuel scores,
+  length ivs = length scores ->
+  greedy_cpts fuel thr ivs maxs scores =
+  option_map (map (nthN maxs)) (ggreedy fuel thr (Ksbs ivs maxs) scores).
+Proof.
+  intros thr ivs maxs. induction fuel as [|f IH]; intros scores Hlen; simpl;
+    destruct (existsb (fun v => thr <? v) scores); simpl; try reflexivity.
+  destruct (argmax scores) as [[i v]|]; [|reflexivity].
+  assert (E : map (fun sv : nat * nat * Z =>
+                     if contains (fst sv) (nthN maxs i) then 0 else snd sv)
+                  (combine ivs scores) = kill_scores (Ksbs ivs maxs) i scores).
+  { rewrite (map_combine_seq _ ivs scores (0, 0)%nat 0 Hlen). reflexivity. }
+  rewrite E. rewrite IH by (rewrite kill_length; exact Hlen).
+  destruct (ggreedy f thr (Ksbs ivs maxs) (kill_scores (Ksbs ivs maxs) i scores)); reflexivity.
+Qed.
+
+(** standing assumptions of the selection loop: three parallel lists of length [N],
+    a non-negative threshold, and every interval contains its own maximiser *)
+Definition greedy_pre (thr : Z) (ivs : list (nat * nat)) (maxs : list nat)
+           (scores : list Z) (N : nat) : Prop :=
+  length ivs = N /\ length maxs = N /\ length scores = N /\ 0 <= thr /\
+  (forall i, (i < N)%nat -> contains (nth i ivs (0, 0)%nat) (nthN maxs i) = true).
+
+Lemma greedy_cpts_idx : forall thr ivs maxs scores fuel picks,
+  length ivs = length scores ->
+  greedy_cpts fuel thr ivs maxs scores = Some picks ->
+  exists idx, ggreedy fuel thr (Ksbs ivs maxs) scores = Some idx /\
+              picks = map (nthN maxs) idx.
+Proof.
+  intros thr ivs maxs scores fuel picks Hlen H. rewrite greedy_cpts_gen in H by exact Hlen.
+  destruct (ggreedy fuel thr (Ksbs ivs maxs) scores) as [idx|]; simpl in H; inversion H.
+  exists idx. split; reflexivity.
+Qed.
+
+Lemma greedy_pre_self_kill : forall thr ivs maxs scores N,
+  greedy_pre thr ivs maxs scores N -> self_kill thr (Ksbs ivs maxs) scores.
+Proof.
+  intros thr ivs maxs scores N (Hi & Hm & Hs & Ht & Hin) i Hlt _. unfold Ksbs.
+  apply Hin. lia.
+Qed.
+
+Theorem greedy_terminates : forall thr ivs maxs scores N fuel,
+  greedy_pre thr ivs maxs scores N -> (N <= fuel)%nat ->
+  exists picks, greedy_cpts fuel thr ivs maxs scores = Some picks /\
+                (length picks <= N)%nat.
+Proof.
+  intros thr ivs maxs scores N fuel Hpre HN.
+  pose proof (greedy_pre_self_kill _ _ _ _ _ Hpre) as Hsk.
+  destruct Hpre as (Hi & Hm & Hs & Ht & Hin).
+  pose proof (cnt_le_length thr scores) as Hc.
+  destruct (ggreedy_terminates thr (Ksbs ivs maxs) Ht fuel scores Hsk) as (p & Hp & Hl);
+    [lia|].
+  exists (map (nthN maxs) p). rewrite greedy_cpts_gen by lia. rewrite Hp. simpl.
+  split; [reflexivity| rewrite map_length; lia].
+Qed.
+
+(** every pick is the maximiser of an interval whose ORIGINAL score exceeds the threshold *)
+Theorem greedy_supported : forall thr ivs maxs scores N fuel picks,
+  greedy_pre thr ivs maxs scores N ->
+  greedy_cpts fuel thr ivs maxs scores = Some picks ->
+  forall c, In c picks ->
+  exists i, (i < N)%nat /\ nthN maxs i = c /\ thr < nthZ scores i.
+Proof.
+  intros thr ivs maxs scores N fuel picks (Hi & Hm & Hs & Ht & Hin) H c Hc.
+  assert (Hlen : length ivs = length scores) by lia.
+  destruct (greedy_cpts_idx _ _ _ _ _ _ Hlen H) as (idx & Hg & ->).
+  apply in_map_iff in Hc. destruct Hc as (i & Hci & Hidx).
+  destruct (ggreedy_supported thr _ Ht _ _ _ Hg i Hidx) as [Hl Hlt].
+  exists i. split; [lia|]. split; assumption.
+Qed.
+
+(** no above-threshold interval is left without a changepoint inside it *)
+Theorem greedy_complete : forall thr ivs maxs scores N fuel picks,
+  greedy_pre thr ivs maxs scores N ->
+  greedy_cpts fuel thr ivs maxs scores = Some picks ->
+  forall i, (i < N)%nat -> thr < nthZ scores i ->
+  exists c, In c picks /\ contains (nth i ivs (0, 0)%nat) c = true.
+Proof.
+  intros thr ivs maxs scores N fuel picks (Hi & Hm & Hs & Ht & Hin) H i HiN Hlt.
+  assert (Hlen : length ivs = length scores) by lia.
+  destruct (greedy_cpts_idx _ _ _ _ _ _ Hlen H) as (idx & Hg & ->).
+  destruct (ggreedy_complete thr _ Ht _ _ _ Hg i ltac:(lia) Hlt) as (i0 & Hin0 & HK).
+  exists (nthN maxs i0). split; [apply in_map; exact Hin0 | exact HK].
+Qed.
+
+(** the pick sequence is threshold-independent; the higher threshold stops earlier *)
+Theorem greedy_threshold_mono : forall thr thr' ivs maxs scores fuel fuel' picks picks',
+  length ivs = length scores -> thr <= thr' ->
+  greedy_cpts fuel thr ivs maxs scores = Some picks ->
+  greedy_cpts fuel' thr' ivs maxs scores = Some picks' ->
+  exists rest, picks = picks' ++ rest.
+Proof.
+  intros thr thr' ivs maxs scores fuel fuel' picks picks' Hlen Hle H H'.
+  destruct (greedy_cpts_idx _ _ _ _ _ _ Hlen H) as (idx & Hg & ->).
+  destruct (greedy_cpts_idx _ _ _ _ _ _ Hlen H') as (idx' & Hg' & ->).
+  destruct (ggreedy_threshold_mono thr thr' _ Hle _ _ _ _ _ Hg Hg') as (rest & ->).
+  exists (map (nthN maxs) rest). apply map_app.
+Qed.
+
+Corollary greedy_threshold_incl : forall thr thr' ivs maxs scores fuel fuel' picks picks',
+  length ivs = length scores -> thr <= thr' ->
+  greedy_cpts fuel thr ivs maxs scores = Some picks ->
+  greedy_cpts fuel' thr' ivs maxs scores = Some picks' ->
+  incl picks' picks.
+Proof.
+  intros thr thr' ivs maxs scores fuel fuel' picks picks' Hlen Hle H H'.
+  destruct (greedy_threshold_mono _ _ _ _ _ _ _ _ _ Hlen Hle H H') as (rest & ->).
+  apply incl_appl, incl_refl.
+Qed.
+
+(** separation: distinct and at distance >= m *)
+Definition sep (m c c' : nat) : Prop := c <> c' /\ (c + m <= c' \/ c' + m <= c)%nat.
+
+Definition maxs_inside (m : nat) (ivs : list (nat * nat)) (maxs : list nat) (N : nat) : Prop :=
+  forall i, (i < N)%nat ->
+    (fst (nth i ivs (0, 0)%nat) + m <= nthN maxs i /\
+     nthN maxs i + m <= snd (nth i ivs (0, 0)%nat))%nat.
+
+Lemma greedy_sep_fop : forall m thr ivs maxs scores N fuel picks,
+  greedy_pre thr ivs maxs scores N -> maxs_inside m ivs maxs N ->
+  greedy_cpts fuel thr ivs maxs scores = Some picks ->
+  ForallOrdPairs (sep m) picks.
+Proof.
+  intros m thr ivs maxs scores N fuel picks (Hi & Hm & Hs & Ht & Hin) Hins H.
+  assert (Hlen : length ivs = length scores) by lia.
+  destruct (greedy_cpts_idx _ _ _ _ _ _ Hlen H) as (idx & Hg & ->).
+  apply FOP_map.
+  apply FOP_impl_Forall with (R := fun i j => Ksbs ivs maxs i j = false)
+                             (P := fun i => (i < N)%nat).
+  - eapply ggreedy_fop; eassumption.
+  - rewrite Forall_forall. intros i Hidx.
+    destruct (ggreedy_supported thr _ Ht _ _ _ Hg i Hidx) as [Hl _]. lia.
+  - intros i j HiN HjN HK. unfold Ksbs in HK.
+    specialize (Hin j HjN). specialize (Hins j HjN).
+    unfold contains in *. destruct (nth j ivs (0, 0)%nat) as [s e]. simpl in *.
+    apply andb_true_iff in Hin. destruct Hin as [A B].
+    apply Nat.leb_le in A. apply Nat.ltb_lt in B.
+    apply andb_false_iff in HK. unfold sep.
+    destruct HK as [C | C]; [apply Nat.leb_gt in C | apply Nat.ltb_ge in C]; lia.
+Qed.
+
+Theorem greedy_separated : forall m thr ivs maxs scores N fuel picks,
+  greedy_pre thr ivs maxs scores N -> maxs_inside m ivs maxs N ->
+  greedy_cpts fuel thr ivs maxs scores = Some picks ->
+  NoDup picks /\
+  (forall a b, (a < length picks)%nat -> (b < length picks)%nat -> a <> b ->
+     (nthN picks a + m <= nthN picks b \/ nthN picks b + m <= nthN picks a)%nat) /\
+  (forall c c', In c picks -> In c' picks -> c <> c' ->
+     (c + m <= c' \/ c' + m <= c)%nat).
+Proof.
+  intros m thr ivs maxs scores N fuel picks Hpre Hins H.
+  pose proof (greedy_sep_fop _ _ _ _ _ _ _ _ Hpre Hins H) as F.
+  destruct (FOP_sym_In (sep m) picks F) as [ND Hall].
+  - intros x y [A B]. split; [congruence | lia].
+  - intros x _ [A _]. congruence.
+  - split; [exact ND|]. split.
+    + intros a b Ha Hb Hab. unfold nthN.
+      destruct (Nat.lt_trichotomy a b) as [L | [E | L]]; [| contradiction |].
+      * destruct (FOP_nth (sep m) picks 0%nat F a b ltac:(lia)) as [_ S]. exact S.
+      * destruct (FOP_nth (sep m) picks 0%nat F b a ltac:(lia)) as [_ S]. lia.
+    + intros c c' Hc Hc' Hne. destruct (Hall c c' Hc Hc' Hne) as [_ S]. exact S.
+Qed.
+
+(** ====================================================================== *)
+(** * 4. The assembled detector *)
+Lemma insert_nat_ins : forall x l, insert_nat x l = ins Nat.leb x l.
+Proof.
+  intros x. induction l as [|y t IH]; simpl; [reflexivity|]. rewrite IH. reflexivity.
+Qed.
+
+Lemma sort_nat_isort : forall l, sort_nat l = isort Nat.leb l.
+Proof.
+  unfold sort_nat, isort. induction l as [|x t IH]; simpl; [reflexivity|].
+  rewrite IH, insert_nat_ins. reflexivity.
+Qed.
+
+Lemma sort_nat_perm : forall l, Permutation (sort_nat l) l.
+Proof. intros l. rewrite sort_nat_isort. apply isort_perm. Qed.
+
+Lemma sort_nat_sorted : forall l i, (S i < length (sort_nat l))%nat ->
+  (nthN (sort_nat l) i <= nthN (sort_nat l) (S i))%nat.
+Proof.
+  intros l i Hi. rewrite sort_nat_isort in *.
+  pose proof (Sorted_nth _ _ 0%nat (isort_sorted Nat.leb l) i Hi) as [H | H].
+  - apply Nat.leb_le in H. exact H.
+  - apply Nat.leb_gt in H. unfold nthN. lia.
+Qed.
+
+(** what the per-interval maximisers satisfy, given well-shaped candidate intervals *)
+Lemma amocs_facts : forall CS m n thr ivs am,
+  0 <= thr -> (1 <= m)%nat ->
+  (forall s e, In (s, e) ivs -> (s + 2 * m <= e /\ e <= n)%nat) ->
+  amocs CS m ivs = Some am ->
+  greedy_pre thr ivs (map fst am) (map snd am) (length ivs) /\
+  maxs_inside m ivs (map fst am) (length ivs) /\
+  (forall i, (i < length ivs)%nat -> (snd (nth i ivs (0, 0)%nat) <= n)%nat).
+Proof.
+  intros CS m n thr ivs am Hthr Hm Hivs A.
+  destruct (amocs_inv _ _ _ _ A) as [Hl Hn].
+  assert (Hins : forall i, (i < length ivs)%nat ->
+            (fst (nth i ivs (0, 0)%nat) + m <= nthN (map fst am) i /\
+             nthN (map fst am) i + m <= snd (nth i ivs (0, 0)%nat) /\
+             snd (nth i ivs (0, 0)%nat) <= n)%nat).
+  { intros i Hi. specialize (Hn i Hi). unfold nthN.
+    rewrite (nth_map_lt fst am i (0%nat, 0) 0%nat) by lia.
+    assert (Hin : In (nth i ivs (0, 0)%nat) ivs) by (apply nth_In; exact Hi).
+    destruct (nth i ivs (0, 0)%nat) as [s e]. destruct (nth i am (0%nat, 0)) as [k v].
+    apply amoc_spec in Hn. apply Hivs in Hin. simpl. lia. }
+  split; [|split].
+  - unfold greedy_pre. rewrite !map_length.
+    split; [reflexivity|]. split; [exact Hl|]. split; [exact Hl|]. split; [exact Hthr|].
+    intros i Hi. destruct (Hins i Hi) as (A1 & A2 & A3). unfold contains.
+    apply andb_true_iff. split; [apply Nat.leb_le | apply Nat.ltb_lt]; lia.
+  - intros i Hi. destruct (Hins i Hi) as (A1 & A2 & A3). split; assumption.
+  - intros i Hi. destruct (Hins i Hi) as (A1 & A2 & A3). exact A3.
+Qed.
+
+Theorem sbs_wellformed : forall CS m thr n ivs cpts am,
+  0 <= thr -> (1 <= m)%nat ->
+  (forall s e, In (s, e) ivs -> (s + 2 * m <= e /\ e <= n)%nat) ->
+  sbs CS m thr ivs = Some (cpts, am) ->
+  (forall i, (S i < length cpts)%nat ->
+     (nthN cpts i < nthN cpts (S i) /\ nthN cpts i + m <= nthN cpts (S i))%nat) /\
+  (forall c, In c cpts -> (m <= c /\ c + m <= n)%nat) /\
+  exists picks, amocs CS m ivs = Some am /\
+    greedy_cpts (length ivs) thr ivs (map fst am) (map snd am) = Some picks /\
+    cpts = sort_nat picks /\ Permutation cpts picks.
+Proof.
+  intros CS m thr n ivs cpts am Hthr Hm Hivs H. unfold sbs in H.
+  destruct (amocs CS m ivs) as [am'|] eqn:A; [|discriminate].
+  destruct (greedy_cpts (length ivs) thr ivs (map fst am') (map snd am')) as [picks|] eqn:G;
+    [|discriminate].
+  inversion H; subst cpts am'. clear H.
+  destruct (amocs_facts CS m n thr ivs am Hthr Hm Hivs A) as (Hpre & Hins & Hn).
+  destruct (greedy_separated m _ _ _ _ _ _ _ Hpre Hins G) as (ND & _ & Hsep).
+  pose proof (sort_nat_perm picks) as P.
+  split; [|split].
+  - intros i Hi. pose proof (sort_nat_sorted picks i Hi) as Hle.
+    assert (Hne : nthN (sort_nat picks) i <> nthN (sort_nat picks) (S i)).
+    { intro E. assert (ND' : NoDup (sort_nat picks))
+        by (eapply Permutation_NoDup; [apply Permutation_sym; exact P | exact ND]).
+      rewrite (NoDup_nth _ 0%nat) in ND'. specialize (ND' i (S i) ltac:(lia) Hi E). lia. }
+    assert (I1 : In (nthN (sort_nat picks) i) picks)
+      by (eapply Permutation_in; [exact P | apply nth_In; lia]).
+    assert (I2 : In (nthN (sort_nat picks) (S i)) picks)
+      by (eapply Permutation_in; [exact P | apply nth_In; lia]).
+    specialize (Hsep _ _ I1 I2 Hne). lia.
+  - intros c Hc. assert (Hc' : In c picks) by (eapply Permutation_in; [exact P | exact Hc]).
+    destruct (greedy_supported _ _ _ _ _ _ _ Hpre G c Hc') as (i & Hi & <- & _).
+    destruct (Hins i Hi) as [A1 A2]. specialize (Hn i Hi). lia.
+  - exists picks. split; [reflexivity|]. split; [exact G|]. split; [reflexivity | exact P].
+Qed.
+
+Theorem sbs_total : forall CS m thr n ivs,
+  0 <= thr -> (1 <= m)%nat ->
+  (forall s e, In (s, e) ivs -> (s + 2 * m <= e /\ e <= n)%nat) ->
+  exists r, sbs CS m thr ivs = Some r.
+Proof.
+  intros CS m thr n ivs Hthr Hm Hivs.
+  destruct (amocs_some CS m ivs) as (am & A & _);
+    [intros s e Hin; apply Hivs in Hin; lia|].
+  destruct (amocs_facts CS m n thr ivs am Hthr Hm Hivs A) as (Hpre & _ & _).
+  destruct (greedy_terminates _ _ _ _ _ (length ivs) Hpre (le_n _)) as (picks & G & _).
+  unfold sbs. rewrite A, G. eauto.
+Qed.
+
+Lemma amoc_ext : forall CS1 CS2 m se,
+  (forall s k e, CS1 s k e = CS2 s k e) -> amoc CS1 m se = amoc CS2 m se.
+Proof.
+  intros CS1 CS2 m [s e] H. unfold amoc.
+  rewrite (map_ext (fun k => CS1 s k e) (fun k => CS2 s k e)) by (intros; apply H).
+  reflexivity.
+Qed.
+
+Lemma amocs_ext : forall CS1 CS2 m ivs,
+  (forall s k e, CS1 s k e = CS2 s k e) -> amocs CS1 m ivs = amocs CS2 m ivs.
+Proof.
+  intros CS1 CS2 m ivs H. induction ivs as [|se t IH]; cbn [amocs]; [reflexivity|].
+  rewrite (amoc_ext CS1 CS2 m se H), IH. reflexivity.
+Qed.
+
+Theorem sbs_ext : forall CS1 CS2 m thr ivs,
+  (forall s k e, CS1 s k e = CS2 s k e) -> sbs CS1 m thr ivs = sbs CS2 m thr ivs.
+Proof.
+  intros CS1 CS2 m thr ivs H. unfold sbs. rewrite (amocs_ext CS1 CS2 m ivs H). reflexivity.
+Qed.
+
+Print Assumptions seeded_in_range.
+Print Assumptions seeded_nonempty.
+Print Assumptions seeded_covers_end.
+Print Assumptions amoc_spec.
+Print Assumptions amoc_some.
+Print Assumptions amoc_none.
+Print Assumptions amocs_some.
+Print Assumptions greedy_terminates.
+Print Assumptions greedy_supported.
+Print Assumptions greedy_complete.
+Print Assumptions greedy_threshold_mono.
+Print Assumptions greedy_threshold_incl.
+Print Assumptions greedy_separated.
+Print Assumptions sbs_wellformed.
+Print Assumptions sbs_total.
+Print Assumptions sbs_ext.
